@@ -126,6 +126,38 @@ def fam_programs(rng, n, nsub_max, waits, shutdown=False, imm_only=False):
     return out
 
 
+def fam_model_scope(rng, n):
+    """Programs in the alphabet of Buffer.tla (plain calls, awaitables that deliver or fail after a delay on the
+    grid, maps of an empty list, wait() calls) - judged by the contract like every other execution and, in addition,
+    eligible for conformance with the timed model."""
+    out = []
+    for _ in range(n):
+        tau = rng.choice([2.0, 2.0, 1.0])
+        prog, t, x = [], 0.0, 0
+        for i in range(rng.randint(1, 4)):
+            if i:
+                t += rng.choice([0.0, 0.5, tau - 0.5, tau, tau + 0.5, 1.0])
+            kind = rng.choice(['call', 'await', 'await', 'afail', 'empty'])
+            sid = i + 1
+            if kind == 'empty':
+                prog.append({'at': t, 'op': 'map', 'id': sid, 'xs': [], 'kind': 'list'})
+            else:
+                x += 1
+                if kind == 'call':
+                    prog.append({'at': t, 'op': 'call', 'id': sid, 'x': x})
+                else:
+                    prog.append({'at': t, 'op': 'await', 'id': sid, 'x': x, 'fail': kind == 'afail',
+                                 'delay': rng.choice([0.0, 0.5, 1.0, tau, tau + 0.5])})
+        for w in range(rng.randint(0, 2)):
+            prog.append({'at': rng.choice([it['at'] for it in prog]) + rng.choice([0.0, 0.5, tau - 0.5, tau, tau + 0.5]),
+                         'op': 'wait', 'w': w + 1, 'cancel': rng.random() < 0.6})
+        prog.sort(key=lambda it: it['at'])
+        func = {'dur': rng.choice([0.0, 0.5, 1.0]), 'fail': rng.choice([[], [], [1], [1, 2]])}
+        out.append({'timeout': tau, 'func': func, 'prog': prog, 'end': end_time(prog, tau, func),
+                    'form': rng.choice(['direct', 'options', 'class'])})
+    return out
+
+
 def fam_foreign(rng, n):
     out = []
     for _ in range(n):
@@ -224,6 +256,8 @@ def run(ctx):
         go(fam_programs(rng, 2000 if q else 30000, 5 if q else 7, 3), 'programs_with_waits')
         go(fam_programs(rng, 1200 if q else 20000, 4, 1, shutdown=True), 'shutdown_instants')
         go(fam_foreign(rng, 500 if q else 12000), 'foreign_threads')
+    if ctx.prop in ('C03', 'C07'):
+        go(fam_model_scope(rng, 300 if q else 5000), 'model_scope_producers')
     if ctx.prop == 'C07':      # make sure some plain-call-plus-wait programs are in the conformance sample
         go(fam_programs(rng, 200 if q else 2000, 4, 2, imm_only=True), 'imm_programs_with_waits')
     # implementation conformance: a sample of the recorded executions against the timed model itself
